@@ -327,8 +327,12 @@ def parse : Nat → Bool → Bytes → List Node → Option (List Info)
 
 def maxNesting : Nat := 8
 
+/-- java/common.go `archives`: the files of a layer that are looked at (the
+    size and zip checks are the harness's: it only sends archives) -/
+def picked (path : Bytes) : Bool := validExt (lastComp path) && !isPrefix (asc ".wh.") (lastComp path)
+
 /-- what the java scanner reports for the archive at `path` in a layer -/
 def scan (path : Bytes) (ms : List Node) : List Info :=
-  (parse (maxNesting - 1) true (lastComp path) ms).getD []
+  if picked path then (parse (maxNesting - 1) true (lastComp path) ms).getD [] else []
 
 end ClairModel.Jar
